@@ -429,8 +429,8 @@ func main() {
 	n := 0
 	type fam struct {
 		maxEntries, maxPaths int
-		top, child, kinds   []string
-		spellings           []string
+		top, child, kinds    []string
+		spellings            []string
 	}
 	fams := []fam{
 		// A: links and odd names, small
